@@ -1,9 +1,9 @@
 SPECIFICATION Spec
-CONSTANT Depth = 4
+CONSTANT Depth = 3
 CONSTANT RcvMode = 1
 CONSTANT SndMode = 2
 CONSTANT PeerH1 = 5
 CONSTANT PeerH3 = 8
-CONSTANT Side = "client"
+CONSTANT Side = "listener"
 INVARIANT Emit
 CHECK_DEADLOCK FALSE
